@@ -40,7 +40,8 @@ def symbolic_matrix(I, n, raw):
 
 
 def job_score(job):
-    kind, v, seed = job
+    kind, v, seed = job[:3]
+    fkey = job[3] if len(job) > 3 else 'C11/penalty-terms'
     prog = worker_prog()
     extra = worker_extra()
     res = {'evaluations': 0, 'obligations': 0, 'discharged': 0, 'failures': [], 'nontrivial': [], 'samples': [],
@@ -91,6 +92,12 @@ def job_score(job):
     elif kind == 'dark':
         out = I.call_fn(prog.resolve('dark_module_score'), [Ptr(cell, 0)])
         items.append(('dark ratio term', T.eq(32, out, iso.dark_t(V))))
+    elif kind == 'panics':
+        # large symbol: only the panic/overflow obligations of the three scoring functions (the penalty values of large
+        # symbols are outside the bound); counters that are too narrow only overflow on the largest symbols
+        # (score::line is left out: its overflow obligations on 177-module lines are not decided within the solver cap)
+        I.call_fn(prog.resolve('matrix_score_squares'), [Ptr(cell, 0)])
+        I.call_fn(prog.resolve('dark_module_score'), [Ptr(cell, 0)])
     elif kind == 'total':
         # glue: score() = dark + squares + sum over i of line(row i) and line(row i of the transpose argument)
         lines = []
@@ -121,6 +128,8 @@ def job_score(job):
     pan = [('%s@%s: %s' % (o.kind, o.where, o.msg[:40]), T.implies(T.and_many(list(o.pc)), o.cond)) for o in I.obligations]
     solver = worker_solver(60000, 'z3-new', lut_mode='ite', logic='QF_BV')
     syn, nsolv, fails, unk = discharge(solver, items, eval_search=24, chunk=1)
+    if kind == 'panics' and len(I.obligations) == 0:
+        items.append(('the scoring functions were executed', 1))
     if kind == 'total':
         pan = []        # overflow of sums of uninterpreted values is not a property of the real scores
     s2, n2, f2, u2 = discharge(solver, pan, eval_search=4, chunk=8)
@@ -133,7 +142,7 @@ def job_score(job):
     res['discharged'] = res['obligations'] - len(fails) - len(unk)
     res['nontrivial'] = ['V%02d %s #%d' % (v + 1, kind, i) for i, (_, c) in enumerate(items + pan) if type(c) is not int]
     res['samples'] = [{'version': v + 1, 'function': kind, 'free': 'every data module value (%d free bits); function/format modules as in the blank symbol' % sum(1 for x in raw if not x & 0xFE),
-                       'obligations': len(items), 'panic_obligations': len(pan), 'example': items[min(3, len(items) - 1)][0]}]
+                       'obligations': len(items), 'panic_obligations': len(pan), 'example': (items or pan or [('-',)])[min(3, len(items or pan or [0]) - 1)][0]}]
     if unk and not fails:
         raise Inconclusive('solver returned unknown (%s V%02d): %s' % (kind, v + 1, unk[:2]))
     native = OV.Native(extra['native'])
@@ -149,7 +158,7 @@ def job_score(job):
             'model for %s not reproduced natively (native %s, reference %d)' % (lab, ans[:20], ref)
         if ans.startswith('PANIC'):
             confirmed, what = True, 'score() panics: %s' % ans[:80]
-        res['failures'].append({'key': 'C11/penalty-terms', 'what': what, 'confirmed': confirmed, 'obligation': lab,
+        res['failures'].append({'key': fkey, 'what': what, 'confirmed': confirmed, 'obligation': lab,
                                 'replay': {'request': 'score %d %s' % (v, OV.hexs(mod)), 'expect': ref}})
     # vacuity: a matrix with a penalty different from 0 exists (lines) / the comparison is refutable for a perturbed oracle
     a, _ = solver.check([T.eq(1, [x for x in vals if not isinstance(x, int)][0], 1)])
@@ -322,6 +331,8 @@ def main(argv):
         for kind in ('lines', 'squares', 'dark'):
             jobs.append((kind, v, chk.seed))
     jobs.append(('total', 0, chk.seed))
+    jobs.append(('panics', 39, chk.seed))
+    jobs.sort(key=lambda j: -j[1])
     native_path = chk.ov.native(chk.features)
     chk.jobs(job_score, jobs, extra={'native': native_path})
     sel_vs = sorted(set([0, 1, 2, 3] + [chk.rng.randrange(4, 40)])) if chk.tier == 'quick' else list(range(40))
@@ -330,6 +341,7 @@ def main(argv):
     chk.cov['selection_versions'] = [v + 1 for v in sel_vs]
     chk.bounds += ['scoring functions (line per row and per column, matrix_score_squares, dark_module_score, score total on V1): versions %s, every module value symbolic, labels of the real blank symbol' % [v + 1 for v in score_vs],
                    'selection loop with score uninterpreted: versions %s, stream/level/mask option/scores symbolic' % [v + 1 for v in sel_vs]]
+    chk.bounds.append('panic/overflow obligations of matrix_score_squares and dark_module_score on V40 with every data module symbolic (counters too narrow for the largest symbol)')
     chk.outside += ['the run-length term of score::line on lines longer than 29 modules (versions > 3): the equivalence query is beyond the solver (40 s at 33 modules, > 300 s at 41); the routine has no length-dependent code, but that is an argument, not a verdict',
                     'scoring functions on versions > 6',
                     'the un-stubbed end-to-end argmin (real scores of all eight candidates in one query) is beyond the solver; it is the conjunction of the two parts above']
